@@ -344,7 +344,8 @@ class C04:
     rule = ("(core) CoreGen programs (exception-free bases) with 0-3 type-changing edits on the model tree: an expression replaced by "
             "a literal of another type or by None, the last argument of a call / constructor / method call dropped, an argument added, "
             "a variable use renamed to an undefined name; (c05/c06/c07/c09) the conforming AND the mutated cases of the targeted "
-            "generators of those properties. Whatever the checker accepts is executed in-process (settrace budget). Oracle: the "
+            "generators of those properties; (ctor) generated constructors over fields that must be assigned on every path (loops that may "
+            "run zero times); (matrix, fixed) the exhaustive operator x operand-type matrix incl. compound assignments x targets. Whatever the checker accepts is executed in-process (settrace budget). Oracle: the "
             "uncaught exception class is not TypeError, AttributeError, NameError or UnboundLocalError; rejection is always fine. "
             "Non-trivial: an edited or targeted program that was either rejected or accepted and executed; distinct by SHA-1 of the "
             "source; edit kind x verdict histogram reported.")
